@@ -26,7 +26,11 @@ static const uint64_t kBoundary[] = {0, 23, 24, 255, 256, 65535, 65536, 0xffffff
 enum { OP_UINT8, OP_UINT16, OP_UINT32, OP_UINT64, OP_NEG8, OP_NEG16, OP_NEG32, OP_NEG64, OP_BSTR, OP_TSTR, OP_SIMPLE, OP_F2, OP_F4, OP_F8,
        OP_ARR_DEF, OP_ARR_INDEF, OP_MAP_DEF, OP_MAP_INDEF, OP_TAG, OP_BSTR_INDEF, OP_TSTR_INDEF, OP_DUP, OP_EMPTY, OP_NOP, OP_COUNT };
 
-struct Stats { size_t ops = 0, shared = 0, partial = 0, handleless = 0, late_handle = 0, nan = 0, indef = 0, boundary = 0; bool alloc_failed = false; };
+// Simple values 0..19 / 32..255 can be built and serialized but are rejected by libcbor's own decoder, so drivers
+// that load the serialized tree back leave this off.
+static bool allow_unassigned_simple = false;
+
+struct Stats { size_t ops = 0, shared = 0, partial = 0, handleless = 0, late_handle = 0, unassigned_simple = 0, nan = 0, indef = 0, boundary = 0; bool alloc_failed = false; };
 
 static inline float u2f(uint32_t u) { float f; memcpy(&f, &u, 4); return f; }
 static inline double u2d(uint64_t u) { double f; memcpy(&f, &u, 8); return f; }
@@ -104,7 +108,14 @@ struct Interp {
         }
         case OP_SIMPLE: {
           ref::Node n; n.type = 7; n.width = 0; cbor_item_t* it = nullptr;
-          switch (p % 6) {
+          int sel = p % 8; if (sel >= 6 && !allow_unassigned_simple) sel = p % 6;
+          switch (sel) {
+            case 6: case 7: {   // simple values without a meaning of their own: 0..19 and 32..255 (24..31 cannot be encoded)
+              static const uint8_t tv[] = {0, 19, 32, 255}; uint8_t v = r.done() ? tv[p % 4] : r.u8(); if (v >= 24 && v < 32) v = (uint8_t)(v + 8);
+              if (sel == 6) it = cbor_build_ctrl(v); else { it = cbor_new_ctrl(); if (it) cbor_set_ctrl(it, v); }
+              n.value = v; if (v < 20 || v > 23) stats.unassigned_simple++;
+              break;
+            }
             case 0: it = cbor_build_bool(false); n.value = 20; break;
             case 1: it = cbor_build_bool(true); n.value = 21; break;
             case 2: it = cbor_new_null(); n.value = 22; break;
